@@ -1,0 +1,217 @@
+//! Verification-harness hook (cargo feature `verif-hooks`): a read-only, plain-data copy of the
+//! transaction pool's contents and bookkeeping.  Nothing here is compiled unless the feature is
+//! enabled, and nothing here mutates the pool.
+use crate::component::pool_map::Status;
+use crate::pool::TxPool;
+use ckb_types::{
+    core::TransactionView,
+    packed::{Byte32, OutPoint, ProposalShortId},
+};
+
+/// Status of a pool entry.
+#[derive(Clone, Copy, Debug, PartialEq, Eq, PartialOrd, Ord, Hash)]
+pub enum VerifStatus {
+    /// pending
+    Pending,
+    /// gap
+    Gap,
+    /// proposed
+    Proposed,
+}
+
+/// One pool entry, copied field by field.
+#[derive(Clone, Debug)]
+pub struct VerifEntry {
+    /// proposal short id (primary key of the pool)
+    pub id: ProposalShortId,
+    /// transaction hash
+    pub tx_hash: Byte32,
+    /// status as stored in the multi-index map
+    pub status: VerifStatus,
+    /// `TxEntry::size`
+    pub size: u64,
+    /// `TxEntry::cycles`
+    pub cycles: u64,
+    /// `TxEntry::fee` (shannons)
+    pub fee: u64,
+    /// `TxEntry::timestamp`
+    pub timestamp: u64,
+    /// `TxEntry::ancestors_count`
+    pub ancestors_count: u64,
+    /// `TxEntry::ancestors_size`
+    pub ancestors_size: u64,
+    /// `TxEntry::ancestors_cycles`
+    pub ancestors_cycles: u64,
+    /// `TxEntry::ancestors_fee`
+    pub ancestors_fee: u64,
+    /// `TxEntry::descendants_count`
+    pub descendants_count: u64,
+    /// `TxEntry::descendants_size`
+    pub descendants_size: u64,
+    /// `TxEntry::descendants_cycles`
+    pub descendants_cycles: u64,
+    /// `TxEntry::descendants_fee`
+    pub descendants_fee: u64,
+    /// the score key stored in the index: (fee, weight, ancestors_fee, ancestors_weight)
+    pub score_key: (u64, u64, u64, u64),
+    /// the evict key stored in the index: (fee_rate, timestamp, descendants_count)
+    pub evict_key: (u64, u64, u64),
+    /// the transaction itself
+    pub tx: TransactionView,
+    /// `TxEntry::related_dep_out_points()` (cell deps after dep-group expansion)
+    pub related_deps: Vec<OutPoint>,
+}
+
+/// The whole pool.
+#[derive(Clone, Debug)]
+pub struct VerifDump {
+    /// entries in slab order
+    pub entries: Vec<VerifEntry>,
+    /// ids in the order of the score index (ascending)
+    pub score_order: Vec<ProposalShortId>,
+    /// ids in the order of the evict index (ascending: first = next to be evicted)
+    pub evict_order: Vec<ProposalShortId>,
+    /// `links`: (id, parents, children)
+    pub links: Vec<(ProposalShortId, Vec<ProposalShortId>, Vec<ProposalShortId>)>,
+    /// `edges.inputs`
+    pub edges_inputs: Vec<(OutPoint, ProposalShortId)>,
+    /// `edges.deps`
+    pub edges_deps: Vec<(OutPoint, Vec<ProposalShortId>)>,
+    /// `edges.header_deps`
+    pub edges_header_deps: Vec<(ProposalShortId, Vec<Byte32>)>,
+    /// `PoolMap::total_tx_size`
+    pub total_tx_size: u64,
+    /// `PoolMap::total_tx_cycles`
+    pub total_tx_cycles: u64,
+    /// `PoolMap::pending_count`
+    pub pending_count: u64,
+    /// `PoolMap::gap_count`
+    pub gap_count: u64,
+    /// `PoolMap::proposed_count`
+    pub proposed_count: u64,
+    /// `PoolMap::max_ancestors_count`
+    pub max_ancestors_count: u64,
+    /// tip hash of the snapshot owned by the pool
+    pub tip_hash: Byte32,
+    /// tip number of the snapshot owned by the pool
+    pub tip_number: u64,
+    /// `TxPoolConfig::max_tx_pool_size`
+    pub max_tx_pool_size: u64,
+    /// `TxPoolConfig::min_fee_rate` (shannons / KW)
+    pub min_fee_rate: u64,
+    /// `TxPoolConfig::min_rbf_rate` (shannons / KW)
+    pub min_rbf_rate: u64,
+    /// expiry in milliseconds
+    pub expiry_ms: u64,
+    /// the conflicts cache: (id, tx hash)
+    pub conflicts_cache: Vec<(ProposalShortId, Byte32)>,
+    /// number of transactions waiting in the verify queue (filled in by the service)
+    pub verify_queue_len: u64,
+    /// number of orphan transactions (filled in by the service)
+    pub orphan_len: u64,
+}
+
+impl TxPool {
+    /// Copies the pool's contents and bookkeeping into plain data.
+    pub fn verif_dump(&self) -> VerifDump {
+        let pm = &self.pool_map;
+        let status = |s: Status| match s {
+            Status::Pending => VerifStatus::Pending,
+            Status::Gap => VerifStatus::Gap,
+            Status::Proposed => VerifStatus::Proposed,
+        };
+        let entries = pm
+            .entries
+            .iter()
+            .map(|(_, e)| VerifEntry {
+                id: e.id.clone(),
+                tx_hash: e.inner.transaction().hash(),
+                status: status(e.status),
+                size: e.inner.size as u64,
+                cycles: e.inner.cycles,
+                fee: e.inner.fee.as_u64(),
+                timestamp: e.inner.timestamp,
+                ancestors_count: e.inner.ancestors_count as u64,
+                ancestors_size: e.inner.ancestors_size as u64,
+                ancestors_cycles: e.inner.ancestors_cycles,
+                ancestors_fee: e.inner.ancestors_fee.as_u64(),
+                descendants_count: e.inner.descendants_count as u64,
+                descendants_size: e.inner.descendants_size as u64,
+                descendants_cycles: e.inner.descendants_cycles,
+                descendants_fee: e.inner.descendants_fee.as_u64(),
+                score_key: (
+                    e.score.fee.as_u64(),
+                    e.score.weight,
+                    e.score.ancestors_fee.as_u64(),
+                    e.score.ancestors_weight,
+                ),
+                evict_key: (
+                    e.evict_key.fee_rate.as_u64(),
+                    e.evict_key.timestamp,
+                    e.evict_key.descendants_count as u64,
+                ),
+                tx: e.inner.transaction().clone(),
+                related_deps: e.inner.related_dep_out_points().cloned().collect(),
+            })
+            .collect();
+        let tip = self.snapshot.tip_header();
+        VerifDump {
+            entries,
+            score_order: pm.entries.iter_by_score().map(|e| e.id.clone()).collect(),
+            evict_order: pm
+                .entries
+                .iter_by_evict_key()
+                .map(|e| e.id.clone())
+                .collect(),
+            links: pm
+                .links
+                .inner
+                .iter()
+                .map(|(id, l)| {
+                    (
+                        id.clone(),
+                        l.parents.iter().cloned().collect(),
+                        l.children.iter().cloned().collect(),
+                    )
+                })
+                .collect(),
+            edges_inputs: pm
+                .edges
+                .inputs
+                .iter()
+                .map(|(o, id)| (o.clone(), id.clone()))
+                .collect(),
+            edges_deps: pm
+                .edges
+                .deps
+                .iter()
+                .map(|(o, ids)| (o.clone(), ids.iter().cloned().collect()))
+                .collect(),
+            edges_header_deps: pm
+                .edges
+                .header_deps
+                .iter()
+                .map(|(id, hs)| (id.clone(), hs.clone()))
+                .collect(),
+            total_tx_size: pm.total_tx_size as u64,
+            total_tx_cycles: pm.total_tx_cycles,
+            pending_count: pm.pending_count as u64,
+            gap_count: pm.gap_count as u64,
+            proposed_count: pm.proposed_count as u64,
+            max_ancestors_count: pm.max_ancestors_count as u64,
+            tip_hash: tip.hash(),
+            tip_number: tip.number(),
+            max_tx_pool_size: self.config.max_tx_pool_size as u64,
+            min_fee_rate: self.config.min_fee_rate.as_u64(),
+            min_rbf_rate: self.config.min_rbf_rate.as_u64(),
+            expiry_ms: self.expiry,
+            conflicts_cache: self
+                .conflicts_cache
+                .iter()
+                .map(|(id, tx)| (id.clone(), tx.hash()))
+                .collect(),
+            verify_queue_len: 0,
+            orphan_len: 0,
+        }
+    }
+}
